@@ -124,6 +124,64 @@ Definition uidcopy_sched (s : store) (sel : Z) (set : list uspec) (dest : str)
     end
   end.
 
+(** db.renameInboxPerUser (RENAME INBOX x) at statement level:
+      N  is there a mailbox x?          N  id of INBOX            (autocommit reads)
+      parents, V + M: the target row (CreateMailboxPerUser)        (autocommit)
+      B  BEGIN
+      U  UPDATE mailboxes SET uid_next = (SELECT uid_next FROM mailboxes WHERE id = inbox)
+                              WHERE id = target          -- counter copied INSIDE the transaction
+      P  UPDATE message_mailbox SET mailbox_id = target WHERE mailbox_id = inbox
+      C  COMMIT
+    [e1]: the other sessions' complete commands between the creation of the target
+    row and the transaction (nothing can commit inside it). *)
+Definition rename_inbox_sched (s : store) (new : str) (t : Z) (e1 : list op) : store * result :=
+  match find_name s new with
+  | Some _ => (run e1 s, RNo)
+  | None =>
+    match find_name s INBOX with
+    | None => (run e1 s, RNo)
+    | Some ib =>
+      let '(s0, ok) := create_parents s new t in
+      if negb ok then (run e1 s0, RNo) else
+      match create_mailbox_row s0 new t with
+      | None => (run e1 s0, RNo)
+      | Some (s1, nid) =>
+        let s2 := run e1 s1 in
+        match find_id s2 (mb_id ib) with
+        | None => (s2, RNo)
+        | Some ib' =>
+          match reparent (set_next s2 nid (mb_next ib')) (mb_id ib) nid with
+          | Some s3 => (s3, ROk)
+          | None => (s2, RNo)
+          end
+        end
+      end
+    end
+  end.
+
+(** seeded C08-5: INBOX's uid_next is read up front (with the INBOX id) and
+    written into the target later *)
+Definition rename_inbox_sched_stale (s : store) (new : str) (t : Z) (e1 : list op) : store * result :=
+  match find_name s new with
+  | Some _ => (run e1 s, RNo)
+  | None =>
+    match find_name s INBOX with
+    | None => (run e1 s, RNo)
+    | Some ib =>
+      let '(s0, ok) := create_parents s new t in
+      if negb ok then (run e1 s0, RNo) else
+      match create_mailbox_row s0 new t with
+      | None => (run e1 s0, RNo)
+      | Some (s1, nid) =>
+        let s2 := run e1 s1 in
+        match reparent (set_next s2 nid (mb_next ib)) (mb_id ib) nid with
+        | Some s3 => (s3, ROk)
+        | None => (s2, RNo)
+        end
+      end
+    end
+  end.
+
 (** ---- evaluation of the suite "sched2" --------------------------------------- *)
 
 (** prepared account: INBOX 2 messages, Trash 4, Spam 2 *)
@@ -132,7 +190,7 @@ Definition sched2_prep : list op :=
    OAppend (S_ "Trash") []; OAppend (S_ "Trash") []; OAppend (S_ "Trash") []; OAppend (S_ "Trash") [];
    OAppend SPAM []; OAppend SPAM []].
 
-Inductive holder := HMove | HUidCopy.
+Inductive holder := HMove | HUidCopy | HRenameInbox (t : Z).
 
 (** holder, slot (0: other commands before L, 1: between L and the transaction),
     the other commands, commands that ran after the holder, observed tables *)
@@ -144,6 +202,7 @@ Definition eval_sched2 (c : store * holder * Z * list op * list op * list mview 
   let s1 := match h with
             | HMove => uidstore1_sched s 1 SAdd [JUNK] 1 e0 e1 false
             | HUidCopy => fst (uidcopy_sched s 1 [URange 1 2] SPAM e0 e1 false)
+            | HRenameInbox t => fst (rename_inbox_sched s (S_ "R1") t env)
             end in
   let s2 := run late s1 in
   same_set mview_eqb (map mview_of (mboxes s2)) ms && same_set lview_eqb (map lview_of (links s2)) ls.
